@@ -13,6 +13,7 @@ type hConn struct {
 	failAt  int // Write call number (1-based) that fails; 0 = never
 	nwrites int
 	read    func(p []byte) (int, error)
+	onWrite func(p []byte)
 }
 
 type hErr struct{ s string }
@@ -28,6 +29,9 @@ func (c *hConn) Write(p []byte) (int, error) {
 		return 0, errHWrite
 	}
 	c.writes = append(c.writes, append([]byte{}, p...))
+	if c.onWrite != nil {
+		c.onWrite(p)
+	}
 	return len(p), nil
 }
 func (c *hConn) Read(p []byte) (int, error) {
